@@ -83,6 +83,8 @@ structure MState where
   skip : Bool := false
   started : Bool := false      -- the Matcher is built (and `check_valid` runs) at the first call
   bad : Option String := none
+  pmeta : List (Model.Val.Value × Model.Val.Value) := []
+  pstatic : List (Model.Val.Value × Model.Val.Value) := []
   deriving Inhabited
 
 /-- the interpreter as an instance of the run loop's matcher -/
@@ -98,7 +100,7 @@ def interpMatcher : MatcherSem MState where
       { line := rec, headers := ms.headers, dm := ms.dm, idx := ctx.idx, dataCount := ctx.dataCount,
         dataNumber := ctx.dataNumber, dataEndCount := ms.dataEndCount, scanCount := ctx.scanCount,
         matchCount := fl.matchCount, isLastLine := ctx.endIdx == some ctx.idx,
-        scanIsLast := Model.Scan.isLast ms.scan ctx.endIdx ctx.idx }
+        scanIsLast := Model.Scan.isLast ms.scan ctx.endIdx ctx.idx, pmeta := ms.pmeta, pstatic := ms.pstatic }
     let v : View :=
       { vars := ms.vars, stopped := fl.stopped, skip := ms.skip, frozen := fl.frozen, valid := fl.valid,
         advance := fl.advance, prints := ms.prints }
